@@ -347,7 +347,7 @@ def write_json(path, obj) -> None:
 
 def save_replay(check_id, violation) -> str:
     d = hashlib.sha1(canon(violation["case"]).encode()).hexdigest()[:12]
-    path = os.path.join(VERIF, "replays", "%s-%s.json" % (check_id, d))
+    path = os.path.join(os.environ.get("VERIF_REPLAY_DIR") or os.path.join(VERIF, "replays"), "%s-%s.json" % (check_id, d))
     os.makedirs(os.path.dirname(path), exist_ok=True)
     write_json(path, dict(property=check_id, case=violation["case"],
                           message=violation["message"], unit=violation.get("unit")))
